@@ -6,7 +6,8 @@ import time
 import traceback
 from concurrent.futures import ThreadPoolExecutor
 
-from . import core, replay
+from . import core, replay, kani
+import re
 from .core import VERIF, REPO, Failure
 
 
@@ -20,6 +21,50 @@ class WitnessResult:
         lim = 400000 if full else 600
         return dict(name=self.name, input=self.job[:lim], ok=self.ok, observed=str(self.observed)[:1500],
                     expected=str(self.expected)[:1500], note=self.note)
+
+
+def _second_opinion(failures, undecided, kani_runs, tier, seed):
+    """Z3 cannot do bit-level reasoning without proof text inside the body, which the extraction never adds.  A per-operator clause of
+    Expr::run_nested that Verus fails to prove is therefore put to the COMPLETE Kani harness of the same operator (all operand values,
+    bit-precise): if that harness verifies, the clause holds and the Verus failure is a prover limit -> UNDECIDED, not a violation."""
+    import expr_gen
+    names = dict(Add='add', Sub='sub', Mul='mul', BitwiseAnd='and', BitwiseXor='xor', BitwiseOr='or', ShiftLeft='shl', ShiftRight='shr',
+                 LessThan='lt', LessOrEqual='le', GreaterThan='gt', GreaterOrEqual='ge', Equal='eq', NotEqual='ne', LogicalAnd='land', LogicalOr='lor')
+    unames = dict(Minus='minus', BitwiseNot='bitnot', LogicalNot='lognot')
+    todo = {}
+    for f in failures:
+        if f.backend == 'verus' and f.unit == 'expr' and f.fn == 'run_nested' and f.label:
+            m = re.match(r'binary_(\w+)$', f.label)
+            if m and m.group(1) in names:
+                todo[f.oid] = 'step_bin_' + names[m.group(1)]
+            m = re.match(r'unary_(\w+)$', f.label)
+            if m and m.group(1) in unames:
+                todo[f.oid] = 'step_un_' + unames[m.group(1)]
+    if not todo:
+        return failures, undecided
+    have = {}
+    for k in kani_runs:
+        if k.name == 'exprstep':
+            for h, d in k.harnesses.items():
+                have[h] = d
+    need = sorted(set(h for h in todo.values() if h not in have))
+    if need:
+        kr = kani.run_group('exprstep', [(h, w) for h, w in expr_gen.step_harness_names(tier) if h in need], tier, seed)
+        if not kr.undecided:
+            for h in need:
+                if h in kr.harnesses:
+                    have[h] = kr.harnesses[h]
+    out = []
+    for f in failures:
+        h = todo.get(f.oid)
+        d = have.get(h) if h else None
+        ok = d is not None and d.get('ok') is True
+        if ok:
+            undecided.append('expr: Verus could not prove %s, but the complete Kani harness %s (all operand values, bit-precise) proves the same clause: '
+                             'a limit of the SMT solver on bit-level code, not a violation' % (f.oid, h))
+        else:
+            out.append(f)
+    return out, undecided
 
 
 def _known_matches(kf, prop, f):
@@ -102,6 +147,7 @@ def run_property(prop, tier, seed):
     for k in kani_runs:
         undecided += k.undecided
         failures += [f for f in k.failures if _counts(f)]
+    failures, undecided = _second_opinion(failures, undecided, kani_runs, tier, seed)
 
     # native witnesses (binding + boundary families); decide nothing universal, but a failing one is a real failing input
     witnesses = []
